@@ -147,6 +147,12 @@ def _run(ctx: Ctx) -> None:
                 if meth not in server.methods or (path == "sock_shm" and not sig):
                     continue
                 declared = server.methods[meth].params_schema
+                if path == "sock_shm" and any(pa.types.is_dictionary(f.type) for f in declared):
+                    # A pointer batch with a dictionary column is decoded under the *inline* schema, unvalidated: a
+                    # region of another shape crashes the server process (C05 finding
+                    # C05-shm-region-decoded-unvalidated), and there the request's column types are by construction
+                    # the inline ones.  The pointer path is exercised for the self-describing (non-dictionary) case.
+                    continue
                 behs = BEHS if exp["invoke"] else [BEHS[(ci + len(path)) % len(BEHS)]]
                 if exp["invoke"] and path in ("sock_shm", "sock_ctx", "http_ctx") and len(sig) > 1:
                     behs = ["ok", BEHS[1 + ci % 5]]
@@ -159,7 +165,6 @@ def _run(ctx: Ctx) -> None:
                             # the perturbed batch lives in the segment; what travels inline is a pointer batch that
                             # carries the *declared* schema and no row
                             seg.reset()
-                            open("/tmp/w2/last_shm_case.txt", "w").write(repr((case, meth, conc["label"], str(conc["batch"].schema), conc["batch"].to_pydict())))
                             off, ln = seg.allocate_and_write(conc["batch"])
                             inline = pa.RecordBatch.from_arrays([pa.nulls(0, f.type) for f in declared], schema=declared)
                             md = dict(seg_md)
